@@ -67,6 +67,7 @@ def pysum (xs : List R) : R :=
 def toRat (x : R) : Rat := floatToRat x
 def ofRat (q : Rat) : R := ratToFloat q
 def decQuot10 (a b : R) : Int := RQ.Q.decQuot10Rat (floatToRat a) (floatToRat b)
+def decQuotRound10 (a b : R) : Int := RQ.Q.decQuotRound10Rat (floatToRat a) (floatToRat b)
 def decMulRound10 (a b : R) : Int := RQ.Q.decMulRound10Rat (floatToRat a) (floatToRat b)
 end R
 
